@@ -147,6 +147,7 @@ def run_case(case):
     handler = {'default': None, 'raise': sv.raise_exception, 'drop': sv.drop, 'ignore': sv.ignore,
                'clear': sv.clear, 'custom4': h4, 'custom5': h5}[policy]
     transform = None
+    tcalls = {}         # (field, row id) -> number of times the transform was applied to that cell in the judged run
     steps_pre = []
     checked = {}      # field name -> declared descriptor (for target_res)
     fn_mode = None
@@ -179,6 +180,8 @@ def run_case(case):
                             row[cn] = 'T:' + row[cn]
 
             def transform(v, field_name=None, row=None):   # noqa: F811
+                if row is not None:
+                    tcalls[(field_name, row.get('id'))] = tcalls.get((field_name, row.get('id')), 0) + 1
                 return v[2:] if isinstance(v, str) and v.startswith('T:') else v
         if omit_resources:
             step = d.set_type(pat, regex=regex, on_error=handler, transform=transform, **copy.deepcopy(opts))
@@ -282,6 +285,7 @@ def run_case(case):
     def reset_logs():
         del log[:]
         calls_in_row.clear()
+        tcalls.clear()
     lab.second_run(rerun, reset_logs)
     try:
         srcs = [lab.source(rn, in_fields, tables[rn]) for rn in res_names]
@@ -350,6 +354,10 @@ def run_case(case):
             elif not lab.strict_eq(er, gr):
                 add('row_value', '%r: row %r expected %r' % (cfg, gr, er))
                 break
+    many = sorted(k for k, v in tcalls.items() if v > 1 and len(res_names) == 1)
+    if many:
+        add('transform_calls', '%r: the transform was applied %d times to cell %r' % (cfg, tcalls[many[0]], many[0]),
+            'transform_applied_more_than_once')
     if policy.startswith('custom'):
         counters['handler_calls'] += len(log)
         got_log = [(a, b, c, f) for a, b, c, f, _ in log]
